@@ -53,7 +53,7 @@ ms2=V+'/seeded/mutation-sweep-2.json'
 if os.path.exists(ms2):
     d=json.load(open(ms2))
     sm=d['summary']
-    o=["", "**Second sweep** (other random picks, `--seed 777`, base commit %s): %d mutants that build, **%d caught by a check, %d suite only, %d survive both**. One gap (closed, and the source of repair 4675a6b), mapping gaps, the rest equivalent or outside the listed properties. Three mutants that break DTLS 1.3 record reading altogether make the checks end at their wall-clock watchdog: INCONCLUSIVE (exit 2), which is not a pass but not a VIOLATION line either.\n" % (d.get('base_commit','?'), len(d['mutants']), sm.get('caught',0), sm.get('missed-suite-catches',0), sm.get('SURVIVES-BOTH',0))]
+    o=["", "**Second sweep** (other random picks, `--seed 777`, base commit %s): %d mutants that build, **%d caught by a check, %d suite only, %d survive both**. Two gaps (closed; one was the source of repair 4675a6b), mapping gaps, the rest equivalent or outside the listed properties. Three mutants that break DTLS 1.3 record reading altogether make the checks end at their wall-clock watchdog: INCONCLUSIVE (exit 2), which is not a pass but not a VIOLATION line either.\n" % (d.get('base_commit','?'), len(d['mutants']), sm.get('caught',0), sm.get('missed-suite-catches',0), sm.get('SURVIVES-BOTH',0))]
     o.append("| mutant | function | status | verdict |")
     o.append("|---|---|---|---|")
     for m in d['mutants']:
